@@ -6,7 +6,7 @@
    never part of a searched pattern, and is not a '#').
 
    Only executable definitions here; no proofs (Proofs/LinesText.v). *)
-From Coq Require Import List Bool NArith Arith.
+From Coq Require Import List Bool NArith ZArith Arith.
 Import ListNotations.
 
 Definition line := list N.
@@ -57,6 +57,10 @@ Definition indentation (s : list N) : nat :=
   | [] => 0
   | _ => length s - length (lstrip s)
   end.
+
+(* lines[z] with Python's negative indexes (IndexError is not modelled: []) *)
+Definition py_index (f : file) (z : Z) : line :=
+  if (z <? 0)%Z then nth (length f - Z.to_nat (- z)) f [] else nth (Z.to_nat z) f [].
 
 Definition hash_char : N := 35.
 Definition lbracket : N := 91.
